@@ -365,7 +365,21 @@ impl<'tcx> Dumper<'tcx> {
         if let Ok(Ok(val)) = ev {
             self.const_value(&val, t, &mut items);
         } else {
-            items.push(("uneval", esc(&format!("{}", c))));
+            // a const item nested in a generic fn that does not use the parameters
+            let mut done = false;
+            if let Const::Unevaluated(uv, _) = c {
+                if uv.promoted.is_none() {
+                    let did = uv.def;
+                    let r = std::panic::catch_unwind(std::panic::AssertUnwindSafe(|| tcx.const_eval_poly(did)));
+                    if let Ok(Ok(val)) = r {
+                        self.const_value(&val, t, &mut items);
+                        done = true;
+                    }
+                }
+            }
+            if !done {
+                items.push(("uneval", esc(&format!("{}", c))));
+            }
         }
         obj(&items)
     }
@@ -427,12 +441,49 @@ impl<'tcx> Dumper<'tcx> {
                         let bytes = a.inspect_with_uninit_and_ptr_outside_interpreter(start..n);
                         let v: Vec<String> = bytes.iter().map(|b| b.to_string()).collect();
                         items.push(("indirect_bytes", arr(&v)));
+                    } else if let Some(bytes) = self.follow_fat_ptr(a, start) {
+                        let v: Vec<String> = bytes.iter().map(|b| b.to_string()).collect();
+                        items.push(("bytes", arr(&v)));
+                        if matches!(t.kind(), ty::Ref(_, inner, _) if inner.is_str()) {
+                            if let Ok(s) = std::str::from_utf8(&bytes) {
+                                items.push(("str", esc(s)));
+                            }
+                        }
                     } else {
                         items.push(("indirect", esc("ptrs")));
                     }
                 }
             }
         }
+    }
+
+    /// `a` holds a fat pointer (data ptr, len) at `start`: return the pointed-to bytes.
+    fn follow_fat_ptr(&self, a: &rustc_middle::mir::interpret::Allocation, start: usize) -> Option<Vec<u8>> {
+        let tcx = self.tcx;
+        if a.len() < start + 16 {
+            return None;
+        }
+        let raw = a.inspect_with_uninit_and_ptr_outside_interpreter(start..start + 16);
+        let mut off8 = [0u8; 8];
+        off8.copy_from_slice(&raw[0..8]);
+        let mut len8 = [0u8; 8];
+        len8.copy_from_slice(&raw[8..16]);
+        let off = u64::from_le_bytes(off8) as usize;
+        let len = u64::from_le_bytes(len8) as usize;
+        let mut target = None;
+        for (o, prov) in a.provenance().ptrs().iter() {
+            if o.bytes() as usize == start {
+                target = Some(prov.alloc_id());
+            }
+        }
+        let target = target?;
+        if let Some(rustc_middle::mir::interpret::GlobalAlloc::Memory(b)) = tcx.try_get_global_alloc(target) {
+            let b = b.inner();
+            if off + len <= b.len() && len <= 4096 {
+                return Some(b.inspect_with_uninit_and_ptr_outside_interpreter(off..off + len).to_vec());
+            }
+        }
+        None
     }
 
     fn operand(&mut self, o: &Operand<'tcx>, env: TypingEnv<'tcx>) -> String {
@@ -792,7 +843,8 @@ impl rustc_driver::Callbacks for Cb {
                     let mut items: Vec<(&'static str, String)> =
                         vec![("path", esc(&d.path(did))), ("ty", d.ty(t).to_string()), ("sp", d.span(tcx.def_span(did)))];
                     let gens = tcx.generics_of(did);
-                    if gens.count() == 0 && !matches!(tcx.def_kind(did), DefKind::Static { .. }) {
+                    let _ = gens;
+                    if !matches!(tcx.def_kind(did), DefKind::Static { .. }) {
                         let r = std::panic::catch_unwind(std::panic::AssertUnwindSafe(|| tcx.const_eval_poly(did)));
                         if let Ok(Ok(val)) = r {
                             d.const_value(&val, t, &mut items);
